@@ -215,9 +215,12 @@ theorem anchors_present :
 
 -- a reachable nested context exists: some function runs with an inherited lock
 example : anyB contexts (fun c => !c.locks.isEmpty) = true := by decide +kernel
--- and some location is accessed by a write under an exclusive lock and a read under the shared lock of the same mutex
--- without conflict (the rule is used, not just absent): Round.VRFOutput
-example : verdict table contexts (nm! "Round.VRFOutput") (nm! "Round.SetVRFOutput") (nm! "Round.GetVRFOutput") = .sync := by
-  decide +kernel
+-- the rules are used, not just absent: in the generated table Round.VRFOutput is written under `mutex.Lock` and read
+-- under `mutex.RLock` (a synchronised pair), and some pair IS flagged (the check with the empty list fails)
+example : anyB groups (fun g => Nat.beq g.1 (nm! "Round.VRFOutput") &&
+    anyB g.2 (fun p => p.write && anyB p.locks (fun l => l.excl)) &&
+    anyB g.2 (fun p => !p.write && anyB p.locks (fun l => !l.excl)) &&
+    allB g.2 (fun p => allB g.2 (fun q => pairOK [] p q))) = true := by decide +kernel
+example : groupsOKB [] groups = false := by decide +kernel
 
 end ZChain.LockSet
